@@ -160,3 +160,29 @@ fn c19_owning_drop_2() {
     core::mem::forget(t);
     kani::cover!(unsafe { DMA[0].deallocs == 1 });
 }
+
+// hostile device, two steps (C07): it first reports more bytes than the buffer holds (the poll fails and the buffer is
+// not re-posted), then names the same - now not outstanding - buffer again
+// @harness props=C07 tier=quick timeout=1800 panic=clean
+#[kani::proof]
+#[kani::unwind(10)]
+fn c07_owning_repeat_after_error_4() {
+    const N: usize = 4;
+    let (mut oq, mut t, base) = mk::<N>();
+    let x: u16 = kani::any();
+    kani::assume((x as usize) < N);
+    let big: u32 = kani::any();
+    kani::assume(big as usize > B);
+    dev_hostile_used::<N>(0, base, x as u32, big, base.wrapping_add(1));
+    let r1 = oq.poll(&mut t, |_b| Ok(Some(1u8)));
+    assert!(r1 == Err(Error::IoError), "C07: a used length beyond the buffer must be refused");
+    // the device repeats the id
+    dev_hostile_used::<N>(0, base.wrapping_add(1), x as u32, kani::any(), base.wrapping_add(2));
+    let mut seen = usize::MAX;
+    let r2 = oq.poll(&mut t, |b| { seen = b.len(); Ok(Some(2u8)) });
+    // whatever the outcome (result, error or clean panic), no share may be released twice: the ledger Hal asserts it
+    if seen != usize::MAX { assert!(seen <= B, "C07: slice handed to the caller exceeds its backing buffer"); }
+    core::mem::forget(oq);
+    kani::cover!(r2.is_err());
+    kani::cover!(x == 3);
+}
